@@ -175,7 +175,7 @@ fn table_layout(rep: &mut Report, r: &mut Rng) {
     }
     // there are exactly 512 slots: an index beyond them is refused in every build profile (it would name memory outside
     // the 4 KiB block)
-    for bad in [512usize, 513, 1023, 4096, 65535, 65536, 65536 + 7, 65536 + 511, 1 << 32, (1 << 32) + 7, (1 << 48) + 511, usize::MAX - 511, usize::MAX] {
+    for bad in [512usize, 513, 1023, 4096, 65535, 65536, 65536 + 7, 65536 + 511, (1u64 << 32) as usize, ((1u64 << 32) + 7) as usize, ((1u64 << 48) + 511) as usize, usize::MAX - 511, usize::MAX] {
         rep.eval();
         let r1 = crate::util::catch(|| &t[bad] as *const PageTableEntry as usize);
         let r2 = crate::util::catch(|| &mut t[bad] as *mut PageTableEntry as usize);
